@@ -71,7 +71,7 @@ func c04(tier string) {
 		}
 	}
 	acv := os.Getenv("VERIF_ACV")
-	tmp, _ := os.MkdirTemp("", "c04")
+	tmp := lib.TempDir("c04")
 	defer os.RemoveAll(tmp)
 	ctx.ForEach(len(uniq), func(i int) {
 		text := uniq[i]
